@@ -291,3 +291,38 @@ Fixpoint conn_loop (fuel D F : nat) (scripts : list (N * hscript)) (f : fstate) 
                       end
            end
   end.
+
+(* ------------------------------------------------------------------ the frames a connection serves (session 3) *)
+(* the frames serveConn SERVES: conn_loop's own recursion, returning the frame bodies handed to
+   serveFrame instead of the stream trace *)
+Fixpoint conn_frames (fuel D F : nat) (scripts : list (N * hscript)) (f : fstate) (st : sstate) : list (list byte) :=
+  match fuel with
+  | O => []
+  | S fu =>
+      let pre := if (length (f_buf f) <? N.to_nat frame_prefix_len)%nat
+                 then (let '(st1, e) := s_armflush st in (st1, match e with SNil => true | _ => false end))
+                 else (st, true) in
+      let '(st1, ok) := pre in
+      if negb ok then []
+      else match f_next fuel F f (N.to_nat frame_prefix_len) with
+           | None => []
+           | Some (pre, f1) =>
+               let len := (nthb pre 0 * 256 + nthb pre 1)%N in
+               if ((len <? min_tcp_frame) || (max_msg_size <? len))%N then []
+               else
+                 let need_arm := (length (f_buf f1) <? N.to_nat len)%nat in
+                 let '(st2, aok) := if need_arm then s_arm st1 else (st1, true) in
+                 if negb aok then []
+                 else match f_body fuel F f1 (N.to_nat len) with
+                      | None => []
+                      | Some (rx, f2) =>
+                          let '(ops, go) := frame_sops rx (script_of scripts rx) in
+                          let st3 := s_run_quiet D st2 ops in
+                          rx :: (if go then conn_frames fu D F scripts f2 st3 else [])
+                      end
+           end
+  end.
+
+Definition frame_replies (scripts : list (N * hscript)) (rx : list byte) : list (list byte) :=
+  flat_map sop_payloads (fst (frame_sops rx (script_of scripts rx))).
+
